@@ -17,6 +17,9 @@ import (
 	"sync"
 	"testing"
 	"time"
+
+	"golang.org/x/net/http2"
+	"golang.org/x/net/http2/h2c"
 )
 
 type verifC05Case struct {
@@ -33,6 +36,7 @@ type verifC05Obs struct {
 	Delivered []bool  `json:"delivered"`  // chunk i reached the proxy before the backend wrote chunk i+1
 	LatencyMs []int64 `json:"latency_ms"` // flush -> observed by the proxy
 	Total     int     `json:"total_observed"`
+	Uploads   int     `json:"uploads_completed"` // response uploads the proxy has read to the end
 	Err       string  `json:"err,omitempty"`
 }
 
@@ -175,6 +179,7 @@ func TestVerifC05(t *testing.T) {
 			if o != nil {
 				mu.Lock()
 				o.Total = total
+				o.Uploads++
 				mu.Unlock()
 			}
 			w.WriteHeader(200)
@@ -197,7 +202,10 @@ func TestVerifC05(t *testing.T) {
 	if verifThorough() {
 		n = 300
 	}
-	for _, config := range []string{"plain", "shim", "banner"} {
+	// the same lock-step handler behind an h2c server, for the agent's --force-http2 mode
+	backendH2 := httptest.NewServer(h2c.NewHandler(backend.Config.Handler, &http2.Server{}))
+	defer backendH2.Close()
+	for _, config := range []string{"plain", "shim", "banner", "h2c"} {
 		shimP, inject := "", false
 		*injectBanner = ""
 		switch config {
@@ -206,14 +214,19 @@ func TestVerifC05(t *testing.T) {
 		case "banner":
 			*injectBanner = "<b>banner</b>"
 		}
-		hp, err := hostProxy(context.Background(), *host, shimP, inject, false)
+		*host = strings.TrimPrefix(backend.URL, "http://")
+		if config == "h2c" {
+			*host = strings.TrimPrefix(backendH2.URL, "http://")
+		}
+		hp, err := hostProxy(context.Background(), *host, shimP, inject, config == "h2c")
 		if err != nil {
 			t.Fatal(err)
 		}
 		ctx, cancel := context.WithCancel(context.Background())
 		// the proxy-facing client as main() builds it on a GCE VM: every request passes through the VM-identity transport
 		client := &http.Client{Timeout: 120 * time.Second, Transport: utils.RoundTripperWithVMIdentity(ctx, http.DefaultTransport, *proxy, false)}
-		go pollForNewRequests(ctx, client, hp, "verif-backend")
+		loopDone := make(chan struct{})
+		go func() { pollForNewRequests(ctx, client, hp, "verif-backend"); close(loopDone) }()
 		var ids []string
 		cnt := n
 		if config != "plain" {
@@ -231,6 +244,10 @@ func TestVerifC05(t *testing.T) {
 			}
 			if i == 0 {
 				c.Chunks = []int{1, 1, 1, 1, 1}
+			}
+			if config == "h2c" && i == 1 {
+				// a stream that outlives any plausible dial / handshake deadline left on the backend connection
+				c.Chunks, c.Pause, c.CL = []int{100, 100, 100, 100}, 3600, false
 			}
 			mu.Lock()
 			cases[c.ID] = c
@@ -255,6 +272,10 @@ func TestVerifC05(t *testing.T) {
 					if len(o.Delivered) < len(cases[id].Chunks) && !(len(o.Delivered) > 0 && !o.Delivered[len(o.Delivered)-1]) {
 						done = false
 					}
+					// the upload itself ends a moment after its last chunk was seen
+					if len(o.Delivered) >= len(cases[id].Chunks) && o.Uploads == 0 {
+						done = false
+					}
 				}
 				mu.Unlock()
 				if done {
@@ -264,7 +285,12 @@ func TestVerifC05(t *testing.T) {
 			}
 		}
 		cancel()
-		time.Sleep(50 * time.Millisecond)
+		// wait for this configuration's poll loop to end (its list call in flight returns within 2 s): otherwise that call
+		// would receive the next configuration's first batch and serve it through this configuration's handler chain
+		select {
+		case <-loopDone:
+		case <-time.After(10 * time.Second):
+		}
 		mu.Lock()
 		for _, id := range ids {
 			out.emit(map[string]interface{}{"kind": "stream", "case": cases[id], "obs": obs[id]})
